@@ -19,10 +19,12 @@ BUDGET = {'quick': 330, 'thorough': 3000}
 TIME = {'quick': 75, 'thorough': 600}
 EXHAUSTIVE = True
 RULE = ('two streams. load: built-in plugins switched on/off by PLUGIN_<NAME> + 0-7 custom plugin names (module missing, class '
-        'missing, name without a dot, constructor raising, switched off by config with several spellings, order() in '
+        'missing, name without a dot, constructor raising, switched off by config with many spellings — text, Python False, 0, '
+        'the empty string, and DEEP_PLUGIN_<NAME> environment values incl. empty —, order() in '
         '{None, 0, negative, positive, ties}) through the real load_plugins; expected list = the loadable ones stably sorted by '
         '(order() or 0). callbacks: a set of 6-9 custom plugins of every kind (2 resource providers, 2 decorators, 1-2 loggers, 2 '
-        'metric processors, 2 span processors) loaded by a real Deep with a fake gRPC channel; 5 fault points (plugin, callback) '
+        'metric processors, 2 span processors, plus usually one plugin switched off by configuration that must never be loaded '
+        'nor called) loaded by a real Deep with a fake gRPC channel; 5 fault points (plugin, callback) '
         'are chosen and EVERY subset of them raises (Exception class, at every call) through Deep.start, a traced host program '
         'with snapshot+log, metric and span tracepoints, and Deep.shutdown; each run is compared with the fault-free run of the '
         'same set. Non-trivial = a load case with at least one skipped and two loaded plugins, or a callback case with a non-empty '
@@ -34,8 +36,8 @@ ASSUMPTIONS = ['plugin callback failures are Exception-class (a BaseException fr
 
 BUILTIN = ['deep.api.plugin.otel.OTelPlugin', 'deep.api.plugin.python.PythonPlugin',
            'deep.api.plugin.metric.prometheus_metrics.PrometheusPlugin', 'deep.api.plugin.metric.otel_metrics.OTelMetrics']
-OFF = ['False', 'false', '0', 'no', 'off', 'F']
-ON = ['True', 'true', '1', 'yes', 't', 'Y']
+OFF = ['False', 'false', '0', 'no', 'off', 'F', False, 0, '', 'env:', 'env:false', 'env:0']
+ON = ['True', 'true', '1', 'yes', 't', 'Y', 'env:true', 'env:1']
 _G = {}
 
 
@@ -110,7 +112,7 @@ def gen_load(rng):
             switch = rng.choice(ON)
         customs.append({'name': f'Q{i}', 'how': how, 'switch': switch,
                         'order': rng.choice([None, 0, 0, 1, -1, 5, -7, 2, 2, 100])})
-    return {'kind': 'load', 'builtin_switch': [rng.choice([None, None, 'False', 'True', 'no']) for _ in BUILTIN],
+    return {'kind': 'load', 'builtin_switch': [rng.choice([None, None, 'False', 'True', 'no', False, 0, '', 'env:']) for _ in BUILTIN],
             'customs': customs}
 
 
@@ -133,9 +135,17 @@ def gen_callbacks(rng, tier):
         subsets += [list(c) for c in itertools.combinations(range(len(pts)), r)]
     if tier == 'quick':
         subsets = [subsets[0], subsets[-1]] + rng.sample(subsets[1:-1], 14)
+    off = None
+    if rng.random() < 0.7:
+        # a plugin of some kind that is switched off by configuration: never loaded, none of its callbacks runs
+        off = {'name': 'x1', 'kind': rng.choice(['resource', 'decorator', 'logger', 'metric', 'span']),
+               'switch': rng.choice(OFF), 'order': rng.choice([-5, 0, 4]), 'at': rng.randint(0, len(plugins))}
     for sub in subsets:
-        yield {'kind': 'callbacks', 'plugins': plugins, 'orders': orders, 'points': [list(p) for p in pts],
-               'faulty': sorted(sub), 'inp': rng.randint(1, 2)}
+        c = {'kind': 'callbacks', 'plugins': plugins, 'orders': orders, 'points': [list(p) for p in pts],
+             'faulty': sorted(sub), 'inp': rng.randint(1, 2)}
+        if off:
+            c['off'] = off
+        yield c
 
 
 def gen(rng, tier):
@@ -161,6 +171,14 @@ def corpus():
                      {'name': 'Q4', 'how': 'ok', 'switch': None, 'order': None},
                      {'name': 'Q5', 'how': 'ok', 'switch': None, 'order': -1},
                      {'name': 'Q6', 'how': 'ok', 'switch': 'True', 'order': 5}]},
+        {'kind': 'load', 'builtin_switch': [False, 0, '', 'env:'],
+         'customs': [{'name': 'Q0', 'how': 'ok', 'switch': False, 'order': -2},
+                     {'name': 'Q1', 'how': 'ok', 'switch': 0, 'order': 0},
+                     {'name': 'Q2', 'how': 'ok', 'switch': '', 'order': 1},
+                     {'name': 'Q3', 'how': 'ok', 'switch': 'env:', 'order': 1},
+                     {'name': 'Q4', 'how': 'ok', 'switch': None, 'order': 3}]},
+        dict(cb([['d1', 'decorate']]), off={'name': 'x1', 'kind': 'decorator', 'switch': False, 'order': -5, 'at': 2}),
+        dict(cb([]), off={'name': 'x1', 'kind': 'logger', 'switch': '', 'order': -5, 'at': 0}),
         cb([['m1', 'metric']]),                         # D21
         cb([['s1', 'create_span']]),                    # D22
         cb([['s1', 'close']]),                          # D2
@@ -191,12 +209,8 @@ def run_load(case):
         else:
             names.append(f'{modname}.{c["name"]}')
     custom = {'APP_ROOT': '/app'}
-    for b, sw in zip(BUILTIN, case['builtin_switch']):
-        if sw is not None:
-            custom['PLUGIN_' + b.rsplit('.', 1)[1].upper()] = sw
-    for c in case['customs']:
-        if c['switch'] is not None:
-            custom['PLUGIN_' + c['name'].upper()] = c['switch']
+    envkeys = apply_switches(custom, [(b.rsplit('.', 1)[1], sw) for b, sw in zip(BUILTIN, case['builtin_switch'])] +
+                             [(c['name'], c['switch']) for c in case['customs']])
     try:
         cfg = ConfigService(custom, tracepoints=TracepointConfigService())
         loaded = load_plugins(cfg, names)
@@ -204,11 +218,39 @@ def run_load(case):
     except BaseException as e:      # noqa: B902
         return {'raised': f'{type(e).__name__}: {e}'}
     finally:
+        clear_env(envkeys)
         sys.modules.pop(modname, None)
 
 
 def truthy(s):
-    return s.lower() in ('yes', 'true', 't', '1', 'y')
+    """is a plugin with this PLUGIN_<NAME> switch active?  (statement: switched off by configuration = any value
+    other than the documented true spellings; values that are not text — Python False, 0 — switch it off too: the
+    loader skips a plugin whose switch it cannot read)"""
+    if isinstance(s, str) and s.startswith('env:'):
+        s = s[4:]
+    return isinstance(s, str) and s.lower() in ('yes', 'true', 't', '1', 'y')
+
+
+def apply_switches(custom, switches):
+    """switches: [(plugin class name, value)].  'env:<v>' values go to DEEP_PLUGIN_<NAME> in the environment, the others
+    into the dict given to ConfigService.  Returns the environment keys to remove afterwards."""
+    import os
+    env = []
+    for name, sw in switches:
+        if sw is None:
+            continue
+        if isinstance(sw, str) and sw.startswith('env:'):
+            os.environ['DEEP_PLUGIN_' + name.upper()] = sw[4:]
+            env.append('DEEP_PLUGIN_' + name.upper())
+        else:
+            custom['PLUGIN_' + name.upper()] = sw
+    return env
+
+
+def clear_env(keys):
+    import os
+    for k in keys:
+        os.environ.pop(k, None)
 
 
 def load_specs(case):
@@ -237,11 +279,17 @@ def run_callbacks_once(case, faulty_points):
     for p in case['plugins']:
         fail = {cb: 'exc' for (q, cb) in faulty_points if q == p}
         classes.append(make_class(p, KIND_OF[p], rec, fail, case['orders'][p]))
+    names = list(case['plugins'])
+    off = case.get('off')
+    if off:
+        classes.append(make_class(off['name'], off['kind'], rec, {}, off['order']))
+        names.insert(min(off['at'], len(names)), off['name'])
     modname = new_module(classes)
-    custom = {'APP_ROOT': h.dir, 'POLL_TIMER': 5, 'PLUGINS': [f'{modname}.{p}' for p in case['plugins']],
+    custom = {'APP_ROOT': h.dir, 'POLL_TIMER': 5, 'PLUGINS': [f'{modname}.{p}' for p in names],
               'SERVICE_URL': 'fake:1', 'SERVICE_SECURE': 'False',
               'PLUGIN_OTELPLUGIN': 'False', 'PLUGIN_PYTHONPLUGIN': 'False', 'PLUGIN_PROMETHEUSPLUGIN': 'False',
               'PLUGIN_OTELMETRICS': 'False'}
+    envkeys = apply_switches(custom, [(off['name'], off['switch'])]) if off else []
     out = {}
     marks = h.marks['calls']
     f = h.files['calls']
@@ -297,6 +345,7 @@ def run_callbacks_once(case, faulty_points):
         out['started_after'] = bool(deep.started)
         out['hooks_after'] = sys.gettrace() is None
     finally:
+        clear_env(envkeys)
         sys.settrace(None)
         threading.settrace(old_thr)
         sys.modules.pop(modname, None)
@@ -335,7 +384,7 @@ def run_impl(case):
     if case['kind'] == 'load':
         return run_load(case)
     g = G()
-    key = core.canon({k: case[k] for k in ('plugins', 'orders', 'inp')})
+    key = core.canon({k: case.get(k) for k in ('plugins', 'orders', 'inp', 'off')})
     if key not in g['ref']:
         g['ref'][key] = in_thread(run_callbacks_once, case, [])
     pts = [tuple(case['points'][i]) for i in case['faulty']]
@@ -373,6 +422,16 @@ def oracle(case, obs):
     exp_loaded = sorted(case['plugins'], key=lambda p: case['orders'][p])
     if ref['loaded'] != exp_loaded:
         v.append(f'loaded plugins {ref["loaded"]}; configured, active and loadable are {exp_loaded}')
+    off = case.get('off')
+    if off:
+        for o, what in ((ref, 'fault-free run'), (run, 'run')):
+            if off['name'] in o['loaded']:
+                v.append(f'{what}: plugin {off["name"]} is switched off by configuration (PLUGIN_{off["name"].upper()}='
+                         f'{off["switch"]!r}) but was loaded: {o["loaded"]}')
+            if o['events'].get(off['name']):
+                v.append(f'{what}: callbacks of the switched-off plugin {off["name"]} ran: {sorted(o["events"][off["name"]])}')
+            if any(('deco.' + off['name']) in sn for sn in o.get('snapshots', [])) or ('fc.' + off['name']) in o['resource']:
+                v.append(f'{what}: the switched-off plugin {off["name"]} contributed to a snapshot / the resource')
     exp_res = [r for r in ref['resource'] if r[3:] not in {p for p, cb in pts if cb == 'resource'}]
     if run['resource'] != exp_res:
         v.append(f'resource attributes of the providers {run["resource"]}, expected {exp_res}')
